@@ -271,6 +271,27 @@ CHECKS.update({
     ),
 })
 
+CHECKS["C18"]["text"] += (" A declaration sweep (every dtype x format, supported or not, with well-typed, fractional, "
+                          "textual, wider-dtype and missing-attribute values) checks that an accepted write keeps the "
+                          "dataset readable; the remaining format/dtype-table defects are listed as known findings.")
+CHECKS.update({
+    "C01": dict(
+        engine="CodecCells.tla, CodecCells_Eval.tla", category="exploration",
+        text="Weakest claim of the suite. CodecCells.tla is a structural model of the codec pipelines over opaque "
+             "element tokens (logical element order, byte order inside elements, typing rule per format) for every "
+             "shape of rank 0..4 x memory order x byte order x dtype relation; three mutated pipelines (dump in memory "
+             "order, missing byteswap, Fortran reshape) are refuted by TLC. The model is used as the cell generator: "
+             "every (format, compression, dtype, presentation, reader) cell is executed through the real "
+             "write_example and every reader with a value battery (extremes, +-0, +-inf, quiet and signalling NaN "
+             "payloads, subnormals, seeded random bit patterns; empty / NUL-containing / non-ASCII byte and text "
+             "strings) and TLC applies the typing rule to each observation. Values are sampled, not decided.",
+        design_ref="DESIGN.md 5/C01, 8",
+        note="Encode/decode fidelity over the value space cannot be enumerated or proved by a TLA+ model; numpy, "
+             "TensorFlow and the compression libraries are trusted. Five value-level deviations are known findings.",
+        technique="TLA+ structural model as exhaustive cell generator and typing oracle + sampled value batteries on the real codecs",
+    ),
+})
+
 NOT_YET = {}
 
 ALL = [f"C{i:02d}" for i in range(1, 21)]
